@@ -383,6 +383,28 @@ func runC18(seed int64, tier string, sc *Script) map[string]any {
 			sc.Op(v, "cd kill point=%d/%d at=%s", pi+1, len(pts), strings.ReplaceAll(kp.norm, " ", "_"))
 			evals++
 		}
+		// the same system calls failing instead (disk full, I/O error): a call that reports
+		// success has written the new complete file, one that reports failure left the old one
+		for pi, kp := range pts {
+			for _, errno := range []string{"ENOSPC", "EIO"} {
+				os.WriteFile(path, b0, 0o600)
+				os.Chmod(path, 0o600)
+				cmd := exec.Command("strace", "-f", "-o", "/dev/null", "-e", "trace="+straceSet,
+					"-e", fmt.Sprintf("inject=%s:error=%s:when=%d", kp.sys, errno, kp.ord), self, "credchild", path, opsFile)
+				cmd.Env = append(os.Environ(), "GOMAXPROCS=1")
+				rerr := cmd.Run()
+				d := dumpFile(path)
+				v := "ok"
+				switch {
+				case rerr == nil && d != newDump:
+					v = "reported-success-but-file-is-not-the-new-one:" + d
+				case rerr != nil && d != oldDump && d != newDump:
+					v = "failed-and-left-neither-old-nor-new:" + d
+				}
+				sc.Op(v, "cd kill point=%d/%d at=%s fault=%s", pi+1, len(pts), strings.ReplaceAll(kp.norm, " ", "_"), errno)
+				evals++
+			}
+		}
 	}
 	// concurrent callers: the final file equals some sequential order (per-address last writer)
 	sc.Case("cred-concurrent")
